@@ -958,13 +958,12 @@ def g_name(labels):
 
 def post_dns(ctx, pkts, res):
     terms, idx = [], []
-    if res and not all(r["loop_done"] for r in res):
-        ctx.fail("driver-crash:dns-loop", "Responder.RecvAndRespond killed the driver process while answering the generated packets "
-                 "(a panic in the goroutine it starts per packet cannot be recovered)", {"entry": "RecvAndRespond"})
+    step_crashes = []
     for k, ((lbl, pkt, plain, resplen), r) in enumerate(zip(pkts, res)):
         pkt = bytes.fromhex(r["pkt_built"])
         crash_check(ctx, "dns.MessageFromWireFormat", lbl, r["p_out"], r["p_detail"], {"pkt": pkt.hex()})
-        crash_check(ctx, "responder(responseFor/RemoveRequestFormat/WireFormat)", lbl, r["r_out"] or "ret", r["r_detail"], {"pkt": pkt.hex()})
+        if crash_check(ctx, "responder(responseFor/RemoveRequestFormat/WireFormat)", lbl, r["r_out"] or "ret", r["r_detail"], {"pkt": pkt.hex()}):
+            step_crashes.append(pkt.hex())
         if len(pkt) > 1500:
             continue
         qs = glist(r["q"], lambda x: "(%s, %s, %s)" % (g_name(x["name"]), gN(x["type"]), gN(x["class"])))
